@@ -69,6 +69,11 @@ pub struct Death {
   pub hang: bool,
 }
 
+/// stop a drive after this many stalled cases (default: never)
+pub static MAX_HANGS: std::sync::atomic::AtomicUsize = std::sync::atomic::AtomicUsize::new(usize::MAX);
+/// set when a drive was stopped by MAX_HANGS
+pub static STOPPED_EARLY: std::sync::atomic::AtomicBool = std::sync::atomic::AtomicBool::new(false);
+
 pub struct DriveResult {
   pub events: Vec<Value>,
   pub deaths: Vec<Death>,
@@ -287,6 +292,20 @@ pub fn drive_exe(exe: &std::path::Path, o: &DriveOpts) -> (DriveResult, bool) {
           }
         }
       }
+    }
+    // a tree that stalls on one input usually stalls on many, and every stall costs `stall`
+    // seconds of a shard: stop the whole drive once enough of them were seen
+    if deaths.iter().filter(|d| d.hang).count() >= MAX_HANGS.load(std::sync::atomic::Ordering::SeqCst) {
+      for s in slots.iter_mut() {
+        if let Some(ch) = s.child.as_mut() {
+          let _ = ch.kill();
+          let _ = ch.wait();
+        }
+        s.child = None;
+        s.done = true;
+      }
+      STOPPED_EARLY.store(true, std::sync::atomic::Ordering::SeqCst);
+      break;
     }
   }
   (DriveResult { events, deaths }, timed_out)
